@@ -1320,6 +1320,9 @@ class SE3(SO3):
     @classmethod
     def SO3(cls, R, check=True):
         if isinstance(R, SO3):
+            if len(R) > 1:
+                # one pose per rotation
+                return cls([base.r2t(x) for x in R.data], check=False)
             R = R.A
         elif base.isrot(R, check=check):
             pass
